@@ -301,7 +301,7 @@ func evalC19(test string) func(c *peCase) evalResult {
 	}
 }
 
-var garbageFamilies = []string{"prefix", "choice3", "length", "oversize2048", "oversize4096", "otherproc", "otherproc", "stale-prefix", "stale-prefix", "failure-truncated", "failure-truncated", "cause-ext-enum"}
+var garbageFamilies = []string{"prefix", "choice3", "length", "oversize2048", "oversize4096", "otherproc", "otherproc", "stale-prefix", "stale-prefix", "failure-truncated", "failure-truncated", "cause-ext-enum", "frag-zero"}
 
 // enumerateFaults runs the scenario fault-free and returns one case per (index, kind).
 func enumerateFaults(t *testing.T, r *ev.Rec, test string, base *peCase, seed int) []*peCase {
